@@ -73,6 +73,8 @@ struct C<'a> {
     /// model of the route table: (prefix, len, via, expires_at)
     routes: Vec<(IpAddr, u8, IpAddr, Option<i64>)>,
     my_addr: IpAddr,
+    /// the node's current hardware address (the application may change it at run time)
+    my_mac: [u8; 6],
     next_id: u32,
     final_phase: bool,
     /// prefix length of the interface's subnet
@@ -248,6 +250,7 @@ pub fn run(tape: &mut Tape, props: Props, thorough: bool, trace_on: bool) -> Out
         last_solicit: None,
         routes: vec![],
         my_addr: ip_of(v6, 1),
+        my_mac: V_MAC,
         next_id: 0,
         final_phase: false,
         plen,
@@ -285,7 +288,7 @@ fn push_frame(c: &mut C, at: i64, f: Vec<u8>, announce: Option<(IpAddr, [u8; 6])
 fn announce(c: &mut C, who: usize, at: i64, kind: u8, solicited_by: Option<(IpAddr, [u8; 6])>) {
     let nb_ip = c.nbs[who].ip.clone();
     let nb_mac = c.nbs[who].mac;
-    let (to_ip, to_mac) = solicited_by.unwrap_or((c.my_addr.clone(), V_MAC));
+    let (to_ip, to_mac) = solicited_by.unwrap_or((c.my_addr.clone(), c.my_mac));
     // kind 0: true; 1: non-unicast hardware address; 2: off-link protocol address with a foreign hardware address
     let (claim_ip, claim_mac, valid) = match kind {
         0 => (nb_ip.clone(), nb_mac, true),
@@ -394,7 +397,7 @@ fn big_echo_from_neighbour(c: &mut C) {
     while off < l4.len() {
         let end = (off + 272).min(l4.len());
         let o = V4Opts { ident, df: false, mf: end < l4.len(), frag_off: off, tos: 0 };
-        let f = enc_eth(V_MAC, mac, ETH_IPV4, &enc_ipv4(src.v4(), dst.v4(), P_ICMP, 64, &o, &l4[off..end]));
+        let f = enc_eth(c.my_mac, mac, ETH_IPV4, &enc_ipv4(src.v4(), dst.v4(), P_ICMP, 64, &o, &l4[off..end]));
         // traffic from an on-link neighbour confirms (ip, mac)
         push_frame(c, c.now + 1_000 + k, f, Some((src.clone(), mac)));
         off = end;
@@ -431,7 +434,7 @@ fn on_tx(c: &mut C, p: &Packet) -> Result<(), Violation> {
         }
         c.last_solicit = Some(c.now);
         // the population answers according to the target's policy
-        let asker = (c.my_addr.clone(), V_MAC);
+        let asker = (c.my_addr.clone(), c.my_mac);
         if let Some(who) = c.nbs.iter().position(|n| n.ip == target) {
             let pol = if c.final_phase { Policy::Timely } else { c.nbs[who].policy };
             match pol {
@@ -681,6 +684,18 @@ fn scenario_switch(c: &mut C) -> Result<(), Violation> {
             set_routes(c)?;
         }
         10 | 11 if c.frag_mode => big_echo_from_neighbour(c),
+        12 if c.tape.draw(3) == 0 => {
+            // the application gives the interface another hardware address: what the interface has learned about
+            // its neighbours - and the pace of its solicitations - is not affected
+            let mut m = c.my_mac;
+            m[4] = m[4].wrapping_add(1);
+            m[5] = 0x10 + c.tape.draw(16) as u8;
+            c.my_mac = m;
+            let iface = &mut c.node.iface;
+            guard("Interface::set_hardware_addr", || iface.set_hardware_addr(smoltcp::wire::HardwareAddress::Ethernet(smoltcp::wire::EthernetAddress(m))))?;
+            c.view.hw_addr = m.to_vec();
+            c.stats.inc("neigh.own-hardware-address-changed");
+        }
         9 => {
             // the node's own address changes within the subnet (the neighbour cache is flushed)
             let host = if c.my_addr == ip_of(c.v6, 1) { 2 } else { 1 };
